@@ -1146,7 +1146,7 @@ def keyword_frames(big):
     return out
 
 
-def sqli_inputs(tier, salt):
+def sqli_inputs(tier, salt, fp_frac=None):
     r = vgen.rng(salt)
     big = tier == "thorough"
     fx = []
@@ -1164,7 +1164,7 @@ def sqli_inputs(tier, salt):
     items += keyword_frames(big)
     items += list(vgen.window_frames())
     keyword_frames(big)                       # (fills _KW_CACHE)
-    items += list(vgen.fingerprint_inputs(_KW_CACHE["fp"], r, 1.0 if big else 0.2))
+    items += list(vgen.fingerprint_inputs(_KW_CACHE["fp"], r, fp_frac if fp_frac is not None else (1.0 if big else 0.2)))
     items += vgen.long_sql_inputs(big)
     return list(vgen.dedup(items))
 
@@ -1376,7 +1376,7 @@ def c08_c12_inputs(sc, d, rep, tier):
     if len(bi) > cap:
         bi = vgen.rng("c08cap").sample(bi, cap)
         rep.part("inputs", exported_check_behaviours=len(beh), sampled_for_api_records=cap)
-    ins = bi + sqli_inputs(tier, "c08")
+    ins = bi + sqli_inputs(tier, "c08", fp_frac=1.0)        # every entry of the fingerprint table (the decision stage is C08's subject)
     return list(vgen.dedup(ins))
 
 
